@@ -36,6 +36,7 @@ cases = [
  dict(kind='C05.signs'), dict(kind='C05.pconc'), dict(kind='C12.consumers'), dict(kind='C04.dconc'), dict(kind='C04.hrule'), dict(kind='C09.shared'), dict(kind='C14.dconc'),
  dict(kind='C17.tconc', name='cos((z-z0)^2),z0=0.0,default-options'), dict(kind='C18.lconc'), dict(kind='C11.misuse', group='steps', klass=None), dict(kind='C03.views'), dict(kind='C03.shapes'),
  dict(kind='C06.exact', method='forward', n=2, order=2, step_ratios=[2 ** 0.5, 1.23456789, 3.0 ** 0.5], x=0.3, h=0.5, history=[]),
+ dict(kind='C10.reuse'), dict(kind='C17.stages'), dict(kind='C17.alias'), dict(kind='common.defaults'), dict(kind='C17.tconc', name='exp(200000*z),z0=0.0,default-options'),
  dict(kind='common.intx', klass='Hessian', method='central2', f='poly3'), dict(kind='common.intx', klass='Derivative', method='complex', n=2, f='cubic'), dict(kind='common.intx', klass='Jacobian', method='forward', f='vec2'),
 ]
 repo = sys.argv[1] if len(sys.argv) > 1 else '/repo'
